@@ -116,6 +116,8 @@ def generate(ctx, batch, idx):
                 h["font"] = r.choice(vs)
                 h["original"] = False
                 ops.insert(r.randrange(len(ops) + 1), ["vmtx", {"k": r.randrange(1 << 16), "seed": 0}])
+                if r.random() < 0.5:
+                    ops.insert(r.randrange(len(ops) + 1), ["glyfflat", {"k": r.randrange(1 << 16), "seed": 0}])
         elif r.random() < 0.1:
             # outlines off the integer grid in a CFF font, everything recalculated: boxes and extents are rounded
             # outwards wherever they are stored
@@ -419,10 +421,12 @@ def _save_and_judge(res, font, cfg, full, h, scratch, stage):
     glyf_loaded = "glyf" in font and font.isLoaded("glyf") and not h.get("original")
     if not errs and kind in ("sfnt", "woff") and (full or glyf_loaded) and cfg["recalcBBoxes"] and all(t in tabs for t in ("glyf", "loca", "head", "maxp", "hhea", "hmtx")):
         try:
-            derr = oglyf.derived(tabs)
+            derr = oglyf.derived(tabs, vertical="vhea" in font and font.isLoaded("vhea") and font.isLoaded("glyf"))
         except Exception as e:
             derr = ["derived-field parser failed: %s: %s" % (type(e).__name__, e)]
         probes["derived.checked"] = probes.get("derived.checked", 0) + 1
+        if "vhea" in font and font.isLoaded("vhea") and font.isLoaded("glyf") and "vmtx" in tabs:
+            probes["derived.vhea_checked"] = probes.get("derived.vhea_checked", 0) + 1
         if derr:
             _fail(res, "derived-field-wrong:" + derr[0].split(" ")[0], "recomputed from the saved data: %s" % derr[:3] + where, field=derr[0].split(" ")[0])
     # OS/2 first / last character index: recalculated whenever OS/2 is compiled, from the Unicode cmap
